@@ -337,6 +337,8 @@ def g_diffraction(r, k):
     n = NPK[k % len(NPK)]
     xyz = np.ascontiguousarray(r.uniform(1e4, 1e5, (n, 3)))
     om = r.uniform(-180, 180, n)
+    if k % 2 and n:
+        om = r.choice(r.uniform(-180, 180, 4), n)     # few distinct omega values, in random order
     t = r.uniform(-100, 100, 3)
     sc = ("d", 1.0), ("d", 0.3), ("d", 2.0), ("d", -3.0)
     calls = [
